@@ -112,6 +112,9 @@ def apply_upd(base, ups):
 
 
 def some(t):
+    # Some(x!Some) is x (the payload term only exists where x is Some): `Some(v) => Some(v)` is the identity arm
+    if t[0] == "payload" and t[2] == "Some" and t[3] == "0":
+        return t[1]
     return ("adt", "Option", "Some", (("0", t),))
 
 
@@ -461,6 +464,10 @@ class Sym:
             else:
                 fields = tuple((fn, given[fn]) for fn in n["all_fields"] if fn in given)
             adt = short_adt(n["adt"])
+            if adt == "Option" and n["variant"] == "Some" and len(fields) == 1 and fields[0][1][0] == "payload" and fields[0][1][2] == "Some" \
+                    and fields[0][1][3] == "0":
+                out.append((s, (VAL, fields[0][1][1])))
+                continue
             out.append((s, (VAL, ("adt", adt, n["variant"], fields))))
         return out + exits
 
